@@ -2,11 +2,12 @@ CONSTANTS
   NameSeq <- N3
   Slots = {1, 2}
   MaxNodes = 10
-  MaxDepth = 5
+  MaxDepth = 4
   Actions <- ReorderActions
   InitDeclared = 3
+CONSTANT BuildFuns <- FunsD
 INIT Init
-NEXT Next
+NEXT NextB
 CONSTRAINT Bound
 INVARIANT InvCanonical
 INVARIANT InvDenInjective
